@@ -15,6 +15,7 @@ inductive Kind where
   | statelessDist       -- a libstdc++ uniform_*_distribution object: holds parameters only (trusted)
   | unobservablePool    -- FactorGraph node pool: modelled by `PoolWorld`
   | emptyTag            -- an object of an empty struct type (no data members): carries no state
+  | verifHook           -- AITB_VERIF-only observer slot, set by the harness, never by the library
   deriving Repr, DecidableEq
 
 /-- the static-storage objects this model accounts for (names canonicalised by the translator:
@@ -24,6 +25,7 @@ def accounted : List (String × Kind) :=
     ("AIToolbox::Seeder::getSeed()::dist", .statelessDist),
     ("AIToolbox::probabilityDistribution", .statelessDist),
     ("AIToolbox::NO_CHECK", .emptyTag),
+    ("AIToolbox::Verif::anytimeObserver", .verifHook),
     ("AIToolbox::Factored::FactorGraph<_>::factorAdjacenciesPool_", .unobservablePool) ]
 
 /-- **statics_accounted** — proof obligation over the regenerated table: every mutable
